@@ -225,11 +225,38 @@ def _shared(case, out):
         SK.SCHED = None
 
 
+def _optimised(case, out):
+    """the same checks in an interpreter started with -O (assert statements are compiled away there): applications are run
+    that way too, and whether a tampered file is rejected must not depend on it"""
+    import subprocess
+    import sys
+    from ..kit import env as envkit
+    r = subprocess.run([sys.executable, "-O", "-m", "vlib.props.c15", json.dumps(case["cases"])],
+                       cwd=os.path.dirname(os.path.dirname(os.path.dirname(os.path.abspath(__file__)))),
+                       stdout=subprocess.PIPE, stderr=subprocess.PIPE, timeout=600,
+                       env=dict(os.environ, PYTHONDONTWRITEBYTECODE="1", TMPDIR=envkit.scratch_root()))
+    line = [l for l in r.stdout.decode("utf-8", "replace").splitlines() if l.startswith("OUTCOMES ")]
+    if r.returncode != 0 or not line:
+        raise HarnessError("optimised-interpreter child failed rc=%s: %s" % (r.returncode, r.stderr.decode("utf-8", "replace")[-600:]))
+    d = json.loads(line[-1][len("OUTCOMES "):])
+    if d["optimize"] < 1:
+        raise HarnessError("child interpreter did not run with -O")
+    out.label("interpreter_with_-O")
+    for inner, o in zip(case["cases"], d["outcomes"]):
+        out.label(*["-O:" + l for l in o["labels"][:1]])
+        for v in o["violations"]:
+            out.fail(v["kind"], "optimised_interpreter:" + v["key"], dict(v["detail"], inner_case=inner))
+    out.evals = len(case["cases"])
+    return out
+
+
 def run_case(case):
     out = Outcome()
     sub = case["sub"]
     if sub == "shared":
         return _shared(case, out)
+    if sub == "optimised":
+        return _optimised(case, out)
     key = key_of(case)
     kind = KINDS[case.get("kind", 0) % 4]
     n = case.get("n", 0)
@@ -348,6 +375,12 @@ def _enum_shared():
                    "tasks": [[{"op": a, "n": 20, "seed": 3, "kind": 0, "keyseed": 1}], [{"op": b, "n": 33, "seed": 4, "kind": 1, "keyseed": 2}]]}
 
 
+def _enum_optimised():
+    for kind in range(4):
+        yield {"sub": "optimised", "cases": [{"sub": "tamper_all", "n": n, "kind": kind, "keyseed": n % 3, "seed": 3} for n in (0, 16, 33)]
+               + [{"sub": "rt", "n": n, "kind": kind, "keyseed": 1, "seed": 1, "wrapper": 1} for n in (0, 15, 16, 4096)]}
+
+
 def plan(tier):
     quick = tier == "quick"
     maxn = 65536 if quick else (1 << 20)
@@ -377,10 +410,26 @@ def plan(tier):
                        st.lists(st.tuples(st.integers(0, 75), st.integers(0, 2)).map(list), min_size=1, max_size=3))
     return {
         "shards": 16,
-        "enumerations": [("lengths_0_64", _enum_rt), ("tamper_positions", _enum_tamper), ("shared_one_preemption", _enum_shared)],
+        "enumerations": [("lengths_0_64", _enum_rt), ("tamper_positions", _enum_tamper), ("shared_one_preemption", _enum_shared),
+                         ("optimised_interpreter", _enum_optimised)],
         "exhaustive": ["lengths_0_64", "tamper_positions", "shared_one_preemption"],
         "strategies": [("roundtrip", rt, 400 if quick else 6000), ("tamper", tam, 600 if quick else 10000),
-                       ("shared_object", shared, 300 if quick else 4000)],
+                       ("shared_object", shared, 300 if quick else 4000),
+                       ("optimised_interpreter", st.lists(st.one_of(tam, tam, rt), min_size=4, max_size=16).map(lambda cs: {"sub": "optimised", "cases": cs}),
+                        2 if quick else 40)],
         "shrink": "hypothesis",
         "budget_s": 120 if quick else 1200,
     }
+
+
+if __name__ == "__main__":
+    import sys
+    outs = []
+    for c in json.loads(sys.argv[1]):
+        o = run_case(c)
+        outs.append({"labels": o.labels, "violations": [v.to_json() for v in o.violations]})
+    sys.stdout.write("\nOUTCOMES " + json.dumps({"optimize": sys.flags.optimize, "outcomes": outs}) + "\n")
+    sys.stdout.flush()
+    from ..kit import env as envkit
+    envkit.cleanup()
+    os._exit(0)
